@@ -26,6 +26,7 @@ import multiprocessing
 import os
 import re
 import shutil
+import signal
 import tempfile
 from pathlib import Path
 
@@ -100,15 +101,43 @@ def scratch():
         raise core.HarnessError("bundled preprocessor inputs not found in %s" % bundled)
     _S["bundled_dir"] = str(bundled)
     top = tempfile.mkdtemp(prefix="verif_c20_", dir=scratch_base())
+    owner = os.getpid()
     _S["top"] = top
     _S["root"] = None
     Conf.get_path = staticmethod(_scratch_get_path)
+    janitor = _start_janitor(owner, top)
     try:
         yield top
     finally:
-        Conf.get_path = _S["orig_get_path"]
-        _S["root"] = None
+        if os.getpid() == owner:
+            Conf.get_path = _S["orig_get_path"]
+            _S["root"] = None
+            shutil.rmtree(top, ignore_errors=True)
+            try:
+                os.kill(janitor, signal.SIGKILL)
+                os.waitpid(janitor, 0)
+            except OSError:
+                pass
+
+
+def _start_janitor(owner, top):
+    """A small forked process that removes the scratch tree if the check is killed (the finally
+    clause does not run on SIGTERM/SIGKILL)."""
+    pid = os.fork()
+    if pid:
+        return pid
+    try:
+        devnull = os.open(os.devnull, os.O_RDWR)
+        for fd in (0, 1, 2):
+            os.dup2(devnull, fd)
+        os.closerange(3, 256)
+        import time
+
+        while os.getppid() == owner:
+            time.sleep(0.5)
         shutil.rmtree(top, ignore_errors=True)
+    finally:
+        os._exit(0)
 
 
 def use_root(name):
@@ -169,7 +198,7 @@ def read(p):
 # --------------------------------------------------------------------------------------
 # reference helpers
 
-UNIVERSE = ["A", "B", "F", "G", "U", "V", "W", "W2", "W3", "SEQ", "CAT", "ID"]
+UNIVERSE = ["A", "B", "F", "G", "H", "U", "V", "W", "W2", "W3", "SEQ", "CAT", "ID"]
 
 
 def macro_files_of(files):
@@ -473,7 +502,7 @@ ITEMS = {
     "cont": ["#define G(x, y) do { x = y; \\", "        F(y); } while (0)"],
     "cont3": ["#define B (b3 + \\", "    b4 + \\", "    b5)"],
     "contU": ["#define B b6 - \\", "-b7"],
-    "contS": ["#define F(x) (x \\", "    * A)"],
+    "contS": ["#define H(x) x \\", "    * A"],
     "qg": ["#ifdef QEMU_GENERATE", "#define A (a3)", "#endif"],
     "qge": ["#ifdef QEMU_GENERATE", "#define F(x) f3(x, \\", "    ctx)", "#else", "#define F(x) f4(x)", "#endif"],
     "uo": ["#ifdef CONFIG_USER_ONLY", "#define G(x, y) do { } while (0) /* nothing */", "#else", "#define G(x, y) g5(x, y);", "#endif"],
@@ -500,7 +529,7 @@ PATCH_NAMES = list(PATCHES)
 SHORTCODE_HEAD = "#ifndef DEF_SHORTCODE\n#define DEF_SHORTCODE(TAG,SHORTCODE)    /* Nothing */\n#endif\n"
 PROBES = [
     ("p_obj", "{ r = A; s = B; }"),
-    ("p_fun", "{ F(1); G(r, s); }"),
+    ("p_fun", "{ F(1); G(r, s); H(3); }"),
     ("p_usr", "{ U(2); t = V; }"),
     ("p_mix", "{ G(p, q); if (c) { G(p, F(q)); } redo(A); do_x = while0; }"),
     ("p_plain", "{ x = 1; }"),
@@ -530,25 +559,24 @@ def patch_sets(max_patches):
     return [c for k in range(0, max_patches + 1) for c in itertools.combinations(PATCH_NAMES, k)]
 
 
-def macro_pairs(max_items):
-    """(items, placement) - complete; `qge` in the vector header is outside the documented contract
-    (no meaning for #else of a transparent block) and is left out; split needs two items."""
+def macro_pairs(k):
+    """(items, placement) with exactly k items - complete; `qge` in the vector header is outside the
+    documented contract (no meaning for #else of a transparent block) and is left out; split needs
+    two items."""
     out = []
-    for k in range(1, max_items + 1):
-        for items in itertools.product(ITEM_NAMES, repeat=k):
-            for pl in PLACEMENTS:
-                if pl == "vec" and "qge" in items:
-                    continue
-                if pl == "split" and k < 2:
-                    continue
-                out.append((items, pl))
+    for items in itertools.product(ITEM_NAMES, repeat=k):
+        for pl in PLACEMENTS:
+            if pl == "vec" and "qge" in items:
+                continue
+            if pl == "split" and k < 2:
+                continue
+            out.append((items, pl))
     return out
 
 
-def macro_cases(max_items, max_patches):
-    """(items, placement, patch) - the complete product."""
-    ps = patch_sets(max_patches)
-    return [(items, pl, patch) for items, pl in macro_pairs(max_items) for patch in ps]
+def macro_cases(table):
+    """table: {number of items: max patches}.  (items, placement, patch) - the complete product."""
+    return [(items, pl, patch) for k, mp in sorted(table.items()) for items, pl in macro_pairs(k) for patch in patch_sets(mp)]
 
 
 UNDEFS = "".join("#undef %s\n" % n for n in UNIVERSE + ["DEF_SHORTCODE"])
@@ -571,23 +599,44 @@ def ref_patched_text(files, deviate=()):
     return ref_input(files, deviate, shortcode=False)
 
 
-def expand_sections(sections):
-    """sections: list of texts; one preprocessor run; -> list of token lists (None if the batch
-    could not be separated)."""
-    parts = []
-    for k, s in enumerate(sections):
-        parts.append("C20SEC_%d\n%s\n%s%s" % (k, s, PROBE_TEXT, UNDEFS))
-    parts.append("C20END\n")
-    text = "".join(parts)
-    rc, out, err = R.cpp_try(text, "clang")
-    if rc != 0:
-        return None
+class Sec:
+    """Expansion of one section: compared as text first (white space runs collapsed), token-wise only
+    when the texts differ."""
+
+    __slots__ = ("text", "_t")
+
+    def __init__(self, text):
+        self.text = text
+        self._t = None
+
+    @property
+    def toks(self):
+        if self._t is None:
+            self._t = R.ctokens(self.text)
+        return self._t
+
+    def __eq__(self, o):
+        return isinstance(o, Sec) and (self.text == o.text or self.toks == o.toks)
+
+    def __ne__(self, o):
+        return not self.__eq__(o)
+
+    __hash__ = None
+
+
+_WS = re.compile(r"[ \t]+")
+_SECLINE = re.compile(r"C20SEC_(\d+)")
+
+
+def _split_sections(out, n):
     res = []
     cur = None
     seen_end = False
     for ln in out.split("\n"):
         s = ln.strip()
-        m = re.fullmatch(r"C20SEC_(\d+)", s)
+        if not s:
+            continue
+        m = _SECLINE.fullmatch(s)
         if m:
             if int(m.group(1)) != len(res):
                 return None
@@ -598,22 +647,72 @@ def expand_sections(sections):
             seen_end = True
             cur = None
             continue
-        if cur is not None and s:
-            cur.extend(R.ctokens(s))
-    if not seen_end or len(res) != len(sections):
+        if cur is not None:
+            cur.append(_WS.sub(" ", s))
+    if not seen_end or len(res) != n:
         return None
-    rc2, out2, _ = R.cpp_try(text, "gcc")
-    if rc2 == 0 and R.ctokens(out2) != R.ctokens(out):
-        return None
-    return res
+    return [Sec("\n".join(x)) for x in res]
+
+
+_ERRLINE = re.compile(r"^<stdin>:(\d+):(?:\d+:)? (?:fatal )?error", re.M)
+
+
+def _run_tool(text, tool, starts, n):
+    """-> (list of Sec or None if the section markers did not survive, set of sections with errors)"""
+    rc, out, err = R.cpp_try(text, tool)
+    bad = set()
+    for m in _ERRLINE.finditer(err):
+        ln = int(m.group(1))
+        k = 0
+        while k + 1 < len(starts) and starts[k + 1] <= ln:
+            k += 1
+        bad.add(k)
+    secs = _split_sections(out, n)
+    if rc != 0 and not bad:
+        secs = None
+    return secs, bad
+
+
+def expand_sections(sections):
+    """sections: list of macro texts; each is followed by the probes and by #undef of every name of
+    the universe; one clang run and one gcc run for all (both keep going after an error, and report
+    its line).  -> per section a Sec, or a string saying why there is none (an error was reported
+    inside the section, or the two preprocessors disagree on it).  A batch whose section markers do
+    not survive (an unterminated invocation or comment swallows them) is split and re-run."""
+    parts = []
+    starts = []
+    line = 1
+    for k, s in enumerate(sections):
+        t = "C20SEC_%d\n%s\n%s%s" % (k, s, PROBE_TEXT, UNDEFS)
+        starts.append(line)
+        line += t.count("\n")
+        parts.append(t)
+    parts.append("C20END\n")
+    text = "".join(parts)
+    n = len(sections)
+    rc_, bc = _run_tool(text, "clang", starts, n)
+    rg_, bg = _run_tool(text, "gcc", starts, n) if rc_ is not None else (None, set())
+    if rc_ is None or rg_ is None:
+        if n == 1:
+            return ["rejected: the preprocessor output cannot be delimited"]
+        h = n // 2
+        return expand_sections(sections[:h]) + expand_sections(sections[h:])
+    out = []
+    for k in range(n):
+        if k in bc or k in bg:
+            out.append("rejected: %s reports an error" % ("clang" if k in bc else "gcc"))
+        elif rc_[k] != rg_[k]:
+            out.append("clang and gcc disagree")
+        else:
+            out.append(rc_[k])
+    return out
 
 
 def expand_one(section):
-    r = expand_sections([section])
-    if r is None:
-        rc, out, err = R.cpp_try("%s\n%s" % (section, PROBE_TEXT), "clang")
-        return ("err", err[:300] if rc else "preprocessors disagree or output not separable")
-    return ("ok", r[0])
+    r = expand_sections([section])[0]
+    if isinstance(r, str):
+        return ("err", r)
+    return ("ok", r)
 
 
 _TRIVIAL = None
@@ -626,27 +725,46 @@ def trivial_tokens():
     return _TRIVIAL
 
 
-def judge_macro_case(files, code, ref_toks, code_toks, dev_toks):
-    """code: result of code_patched_text; *_toks: probe expansions (code_toks None if the code's file
-    was rejected / not produced); dev_toks: [(rules, tokens or None)] for the candidate rule sets.
+def judge_macro_case(files, code, ref_toks, code_toks, dev):
+    """code: result of code_patched_text; ref_toks/code_toks: probe expansions (code_toks is a string
+    if the code's file was rejected, None if there is no file); dev: [(rules, deviated text or None,
+    its expansion or a string)] for the candidate rule sets.
     -> None | (why, finding ids or None)"""
+    if isinstance(ref_toks, str):
+        raise core.HarnessError("reference input %s:\n%s" % (ref_toks, ref_patched_text(files)))
+    rejected = isinstance(code_toks, str)
     if code[0] != "ok":
         why = "preprocess_macros raises %s: %s" % (code[1], code[2])
-    elif code_toks is None:
-        why = "macros_patched.h is not accepted by the C preprocessor"
+    elif rejected:
+        why = "macros_patched.h is not accepted by the C preprocessor (%s): %r" % (code_toks, code[1][-200:])
     elif code_toks != ref_toks:
-        k = next((i for i, (x, y) in enumerate(itertools.zip_longest(code_toks, ref_toks)) if x != y), 0)
-        why = "patched macro set differs: probes expand to `.. %s`, reference `.. %s`" % (" ".join(code_toks[max(0, k - 8) : k + 10]), " ".join(ref_toks[max(0, k - 8) : k + 10]))
+        ct, rt = code_toks.toks, ref_toks.toks
+        k = next((i for i, (x, y) in enumerate(itertools.zip_longest(ct, rt)) if x != y), 0)
+        why = "patched macro set differs: probes expand to `.. %s`, reference `.. %s`" % (" ".join(ct[max(0, k - 8) : k + 10]), " ".join(rt[max(0, k - 8) : k + 10]))
     else:
         return None
-    for rules, dt in dev_toks:
+    for rules, dtext, dt in dev:
+        if dtext is None:
+            continue
         if code[0] != "ok":
             if code[1] == "IndexError" and F_FILTER in rules and ends_in_continuation(files, rules):
                 return (why, list(rules))
             continue
-        if code_toks is not None and dt is not None and dt == code_toks:
+        if not rejected:
+            if not isinstance(dt, str) and dt == code_toks:
+                return (why, list(rules))
+        elif isinstance(dt, str) and _macro_defs(dtext) == _macro_defs(code[1]):
+            # both texts are rejected when the probes are expanded (unbalanced garbage): the same
+            # macro definitions (clang -dM, no expansion involved) is the strongest statement left
             return (why, list(rules))
     return (why, None)
+
+
+def _macro_defs(text):
+    try:
+        return R.macro_set(text)
+    except core.HarnessError:
+        return {"__rejected__": len(text)}
 
 
 def dev_text(files, rules):
@@ -657,21 +775,15 @@ def dev_text(files, rules):
 
 
 def check_macro_case(d, files):
-    """One case on its own (replay, and fallback when a batch could not be separated)."""
+    """One case on its own (replay)."""
     code = code_patched_text(d, files)
-    r = expand_one(ref_patched_text(files))
-    if r[0] != "ok":
-        raise core.HarnessError("reference input rejected by the preprocessor: %s" % (r[1],))
-    ref_toks = r[1]
-    code_toks = None
-    if code[0] == "ok":
-        r = expand_one(code[1])
-        code_toks = r[1] if r[0] == "ok" else None
-    dev = []
-    for rules in macro_rule_candidates(files):
-        t = dev_text(files, rules)
-        r = expand_one(t) if t is not None else ("err",)
-        dev.append((rules, r[1] if r[0] == "ok" else None))
+    cands = [(rules, dev_text(files, rules)) for rules in macro_rule_candidates(files)]
+    secs = [ref_patched_text(files)] + ([code[1]] if code[0] == "ok" else []) + [t for _, t in cands if t is not None]
+    ex = expand_sections(secs)
+    ref_toks = ex[0]
+    code_toks = ex[1] if code[0] == "ok" else None
+    it = iter(ex[2 if code[0] == "ok" else 1 :])
+    dev = [(rules, t, next(it) if t is not None else None) for rules, t in cands]
     return ref_toks, judge_macro_case(files, code, ref_toks, code_toks, dev)
 
 
@@ -681,10 +793,10 @@ A_PAIRS_PER_BATCH = 6
 
 
 def work_a(item):
-    lo, hi = item
+    k, lo, hi = item
     d = worker_dir()
-    cases = [(items, pl, patch) for items, pl in _A_PAIRS[lo:hi] for patch in _A_PATCHSETS]
-    plan = []  # per case: files, code, index of R section, index of C section, [(rules, index)]
+    cases = [(items, pl, patch) for items, pl in _A_PAIRS[k][lo:hi] for patch in _A_PATCHSETS[k]]
+    plan = []  # per case: files, code, index of R section, index of C section, [(rules, text, index)]
     secs = []
     for c in cases:
         files = macro_case_files(*c)
@@ -698,10 +810,8 @@ def work_a(item):
         dv = []
         for rules in macro_rule_candidates(files):
             t = dev_text(files, rules)
-            if t is None:
-                dv.append((rules, None))
-            else:
-                dv.append((rules, len(secs)))
+            dv.append((rules, t, len(secs) if t is not None else None))
+            if t is not None:
                 secs.append(t)
         plan.append((files, code, ri, ci, dv))
     toks = expand_sections(secs)
@@ -709,11 +819,8 @@ def work_a(item):
     nontrivial = 0
     triv = trivial_tokens()
     for c, (files, code, ri, ci, dv) in zip(cases, plan):
-        if toks is None:
-            rt, r = check_macro_case(d, files)
-        else:
-            rt = toks[ri]
-            r = judge_macro_case(files, code, rt, toks[ci] if ci is not None else None, [(rules, toks[i] if i is not None else None) for rules, i in dv])
+        rt = toks[ri]
+        r = judge_macro_case(files, code, rt, toks[ci] if ci is not None else None, [(rules, t, toks[i] if i is not None else None) for rules, t, i in dv])
         if rt != triv:
             nontrivial += 1
         if r:
@@ -799,12 +906,19 @@ def check_pipeline_case(d, files, level):
             except core.HarnessError:
                 continue
             got, gstray = code_resolved_lines(code[1])
-            # stray text in the deviated reference is compared as a whole token stream
             if not ds and not gstray and got == di:
                 ids = list(rules)
                 break
-            if ds or gstray:
-                if _all_tokens(code[1]) == _deviated_stream(files, rules):
+            # stray text in the deviated reference is compared as a whole token stream
+            if (ds or gstray) and _all_tokens(code[1]) == _deviated_stream(files, rules):
+                ids = list(rules)
+                break
+            # the deviated macro set is recursive (standard preprocessing under it leaves an
+            # invocation): the property says nothing about how such a set resolves; what can still be
+            # stated is that the code's macros_patched.h holds exactly the deviated definitions
+            if any(R.surviving_invocations(t, dk) for _, t in di):
+                mp = os.path.join(d, "macros_patched.h")
+                if os.path.exists(mp) and _macro_defs(read(mp)) == _macro_defs(ref_patched_text(files, rules)):
                     ids = list(rules)
                     break
     elif level == "B2" and code[0] == "ok":
@@ -902,25 +1016,24 @@ B2_BINARY = ["if (c) { %s } else { %s }"]
 B2_CHUNK = 160
 
 
-def b2_cases(nmax, with_spacing):
-    atoms = list(B2_ATOMS)
-    macros = B2_MACROS[0]
-    if with_spacing:
-        atoms.append("W3(a = 3);")
-        macros = B2_MACROS_SPC
+def b2_cases(table):
+    """table: {header that receives the wrapper macro set: node bound}."""
+    atoms = list(B2_ATOMS) + ["W3(a = 3);"]
+    macros = B2_MACROS_SPC
     g = make_grammar(tuple(atoms), tuple(B2_UNARY), tuple(B2_BINARY))
-    bs = []
-    for n in range(1, nmax + 1):
-        bs.extend(g(n))
     out = []
-    for lo in range(0, len(bs), B2_CHUNK):
-        sc = SHORTCODE_HEAD + "".join("DEF_SHORTCODE(b%d, { %s })\n" % (lo + k, b) for k, b in enumerate(bs[lo : lo + B2_CHUNK]))
-        # the same macro text once in macros.h and once in the vector header
-        for where in ("macros.h", "macros_mmvec.h"):
+    total = 0
+    for where, nmax in sorted(table.items()):
+        bs = []
+        for n in range(1, nmax + 1):
+            bs.extend(g(n))
+        total += len(bs)
+        for lo in range(0, len(bs), B2_CHUNK):
+            sc = SHORTCODE_HEAD + "".join("DEF_SHORTCODE(b%d, { %s })\n" % (lo + k, b) for k, b in enumerate(bs[lo : lo + B2_CHUNK]))
             files = {"macros.inc": "", "macros.h": "", "macros_mmvec.h": "", "patches_macros.h": B2_PATCH, "shortcode.h": sc}
             files[where] = macros
             out.append(files)
-    return out, len(bs)
+    return out, total
 
 
 # --------------------------------------------------------------------------------------
@@ -1053,10 +1166,14 @@ def _bundled_child(conn):
 # run / replay
 
 TIERS = {
-    #            C nodes  A items  A patches  B1 items  B1 patches  B2 nodes
-    "quick": dict(c_nodes=4, a_items=3, a_patches=2, b1_items=2, b1_patches=1, b2_nodes=2),
-    "thorough": dict(c_nodes=5, a_items=4, a_patches=2, b1_items=2, b1_patches=2, b2_nodes=3),
+    # c_full/c_reduced: node bounds of (C) over the full / the reduced constructor set;
+    # a: {number of macro-file items: max patches per patch file}; b1: the same for the pipeline;
+    # b2: {placement: node bound}
+    "quick": dict(c_full=4, c_reduced=0, a={1: 2, 2: 2, 3: 1}, b1={1: 1, 2: 1}, b2={"macros.h": 3, "macros_mmvec.h": 2}),
+    "thorough": dict(c_full=4, c_reduced=5, a={1: 3, 2: 3, 3: 2, 4: 1}, b1={1: 2, 2: 2}, b2={"macros.h": 4, "macros_mmvec.h": 3}),
 }
+ATOMS_RED = ["a = 1;", "redo(x);", "do_x = while0;"]
+UNARY_RED = ["do { %s } while (0);", "do { %s } while ( 0 );", "do { %s } while (1);", "if (c) { %s }", "while (0) { %s }"]
 
 
 def ranges(n, size):
@@ -1067,6 +1184,7 @@ def run(ctx):
     global _C_BODIES, _A_PAIRS, _A_PATCHSETS, _B_CASES
     T = TIERS[ctx.tier]
     cov = {}
+    pending = {"I": [], "C": [], "A": [], "B": []}
     with scratch():
         # (i) in a child of its own while the generated spaces use the pool
         mp = multiprocessing.get_context("fork")
@@ -1076,32 +1194,42 @@ def run(ctx):
         cconn.close()
         try:
             # ---- (C)
-            _C_BODIES = bodies(ATOMS, UNARY_C, BINARY_C, T["c_nodes"])
+            _C_BODIES = bodies(ATOMS, UNARY_C, BINARY_C, T["c_full"])
+            n_full = len(_C_BODIES)
+            if T["c_reduced"]:
+                g = make_grammar(tuple(ATOMS_RED), tuple(UNARY_RED), tuple(BINARY_C))
+                for n in range(T["c_full"] + 1, T["c_reduced"] + 1):
+                    _C_BODIES.extend(g(n))
+                del g
             res = core.pmap(work_c, ranges(len(_C_BODIES), 2000), seed=ctx.seed, chunk=1)
             cov["dowhile_bodies"] = sum(r[0] for r in res)
+            cov["dowhile_bodies_full_alphabet"] = n_full
             cov["dowhile_bodies_with_wrapper"] = sum(r[1] for r in res)
             for n, nt, bad in res:
                 for line, why, ids in bad:
-                    ctx.report({"kind": "dowhile", "line": line, "why": why}, ids, what="replace_do_while_0(%r): %s" % (line.strip(), why))
-            ctx.sample({"kind": "dowhile", "line": "insn(X, { %s })" % _C_BODIES[len(_C_BODIES) // 3]})
+                    pending["C"].append(({"kind": "dowhile", "line": line, "why": why}, ids, "replace_do_while_0(%r): %s" % (line.strip(), why)))
+            ctx.sample({"kind": "dowhile", "line": "insn(X, { %s })" % _C_BODIES[n_full // 3]})
             ctx.log("C: %d bodies" % cov["dowhile_bodies"])
             _C_BODIES = None
             # ---- (A)
-            _A_PAIRS = macro_pairs(T["a_items"])
-            _A_PATCHSETS = patch_sets(T["a_patches"])
+            _A_PAIRS = {k: macro_pairs(k) for k in T["a"]}
+            _A_PATCHSETS = {k: patch_sets(mp) for k, mp in T["a"].items()}
             trivial_tokens()
-            res = core.pmap(work_a, ranges(len(_A_PAIRS), A_PAIRS_PER_BATCH), seed=ctx.seed, chunk=4)
+            items = [(k, lo, hi) for k in sorted(_A_PAIRS) for lo, hi in ranges(len(_A_PAIRS[k]), max(1, 96 // len(_A_PATCHSETS[k])))]
+            res = core.pmap(work_a, items, seed=ctx.seed, chunk=4)
             cov["macro_set_cases"] = sum(r[0] for r in res)
             cov["macro_set_cases_nontrivial"] = sum(r[1] for r in res)
             for n, nt, bad in res:
                 for case, why, ids in bad:
-                    ctx.report({"kind": "macroset", "items": list(case[0]), "placement": case[1], "patch": list(case[2]), "files": macro_case_files(*case), "why": why}, ids, what="macro files %s/%s patches %s: %s" % ("+".join(case[0]), case[1], "+".join(case[2]) or "-", why))
-            mid = _A_PAIRS[len(_A_PAIRS) // 2] + (_A_PATCHSETS[-1],)
+                    pending["A"].append(({"kind": "macroset", "items": list(case[0]), "placement": case[1], "patch": list(case[2]), "files": macro_case_files(*case), "why": why}, ids, "macro files %s/%s patches %s: %s" % ("+".join(case[0]), case[1], "+".join(case[2]) or "-", why)))
+            kmax = max(_A_PAIRS)
+            mid = _A_PAIRS[kmax][len(_A_PAIRS[kmax]) // 2] + (_A_PATCHSETS[kmax][-1],)
             ctx.sample({"kind": "macroset", "items": list(mid[0]), "placement": mid[1], "patch": list(mid[2]), "files": macro_case_files(*mid)})
             ctx.log("A: %d macro-set cases" % cov["macro_set_cases"])
+            del res
             # ---- (B1) + (B2)
-            b1 = macro_cases(T["b1_items"], T["b1_patches"])
-            b2, nb2 = b2_cases(T["b2_nodes"], True)
+            b1 = macro_cases(T["b1"])
+            b2, nb2 = b2_cases(T["b2"])
             _B_CASES = [("B1", c) for c in b1] + [("B2", f) for f in b2]
             res = core.pmap(work_b, range(len(_B_CASES)), seed=ctx.seed, chunk=4)
             cov["pipeline_runs_macro_sets"] = len(b1)
@@ -1123,7 +1251,7 @@ def run(ctx):
                 else:
                     files = payload
                     label = "wrapper macro set x %d bodies" % n
-                ctx.report({"kind": "pipeline", "level": level, "files": files, "why": r[0]}, r[1], what="pipeline, %s: %s" % (label, r[0]))
+                pending["B"].append(({"kind": "pipeline", "level": level, "files": files, "why": r[0]}, r[1], "pipeline, %s: %s" % (label, r[0])))
             ctx.sample({"kind": "pipeline", "level": "B2", "shortcode_head": b2[0]["shortcode.h"].split("\n")[3:8], "macros": B2_MACROS_SPC.split("\n")})
             ctx.log("B: %d pipeline runs, %d lines" % (len(_B_CASES), cov["pipeline_lines"]))
             if cov["pipeline_out_of_domain"]:
@@ -1142,11 +1270,22 @@ def run(ctx):
             case = dict(case)
             case["kind"] = "bundled"
             case["why"] = why
-            ctx.report(case, None, what="bundled sources: " + why)
+            pending["I"].append((case, None, "bundled sources: " + why))
         for k, v in cnt.items():
             cov["bundled_" + k if not k.startswith("bundled_") else k] = v
         ctx.sample({"kind": "bundled", "definitions": cnt.get("definitions"), "bodies_compared": cnt.get("bodies_compared")})
         ctx.log("i: bundled sources done")
+    # every space gets its share of the printed VIOLATION lines (new violations before known findings)
+    order = []
+    rest = []
+    for key, head in (("I", 8), ("C", 5), ("A", 5), ("B", 5)):
+        new = [x for x in pending[key] if not (x[1] and all(i in ctx.known for i in x[1]))]
+        old = [x for x in pending[key] if x[1] and all(i in ctx.known for i in x[1])]
+        order.extend(new[:head])
+        rest.extend(new[head:])
+        rest.extend(old)
+    for case, ids, what in order + rest:
+        ctx.report(case, ids, what=what)
     evaluations = cov["dowhile_bodies"] + cov["macro_set_cases"] + cov["pipeline_lines"] + cov.get("bundled_bodies_compared", 0)
     nontrivial = cov["dowhile_bodies_with_wrapper"] + cov["macro_set_cases_nontrivial"] + cov["pipeline_lines_nontrivial"] + cov.get("bundled_bodies_changed_by_resolution", 0)
     cov.update(
@@ -1155,12 +1294,12 @@ def run(ctx):
             "distinct_nontrivial": nontrivial,
             "exhaustive": True,
             "rule": "(i) all DEF_SHORTCODE definitions of the working tree's shortcode.h under its macro/patch files through the real run_preprocess_steps in a scratch tree; "
-            "(C) every statement sequence of <= %d nodes over atoms %r, unary %r, binary %r as `insn(X, { .. })` through replace_do_while_0; "
-            "(A) every sequence of 1..%d macro-file items from %r x placement %r (qge not in the vector header; split needs 2 items) x every set of <= %d patches from %r through preprocess_macros, probes expanded by clang (gcc must agree); "
-            "(B1) the same product with <= %d items and <= %d patches through run_preprocess_steps on %d probe definitions; "
-            "(B2) every statement sequence of <= %d nodes over %d macro-using atoms, unary %r, binary %r under the wrapper macro set placed in macros.h and in macros_mmvec.h, through run_preprocess_steps. "
+            "(C) every statement sequence of <= %d nodes over atoms %r, unary %r, binary %r (and of %s nodes over atoms %r, unary %r) as `insn(X, { .. })` through replace_do_while_0; "
+            "(A) every sequence of k macro-file items from %r x placement %r (qge not in the vector header; split needs 2 items) x every set of <= p patches from %r, {k: p} = %r, through preprocess_macros, %d probes expanded by clang (gcc must agree); "
+            "(B1) the same product with {k: p} = %r through run_preprocess_steps on the probe definitions; "
+            "(B2) every statement sequence of <= n nodes over atoms %r, unary %r, binary %r under the wrapper macro set placed in the header h, {h: n} = %r, through run_preprocess_steps. "
             "non-trivial = resolution changes the text (macro expanded / wrapper stripped / probe affected by the generated macro set)"
-            % (T["c_nodes"], ATOMS, UNARY_C, BINARY_C, T["a_items"], ITEM_NAMES, PLACEMENTS, T["a_patches"], PATCH_NAMES, T["b1_items"], T["b1_patches"], len(PROBES), T["b2_nodes"], len(B2_ATOMS) + 1, B2_UNARY, B2_BINARY),
+            % (T["c_full"], ATOMS, UNARY_C, BINARY_C, "%d..%d" % (T["c_full"] + 1, T["c_reduced"]) if T["c_reduced"] else "no further", ATOMS_RED, UNARY_RED, ITEM_NAMES, PLACEMENTS, PATCH_NAMES, T["a"], len(PROBES), T["b1"], B2_ATOMS + ["W3(a = 3);"], B2_UNARY, B2_BINARY, T["b2"]),
         }
     )
     return ctx.finish(
